@@ -1,18 +1,32 @@
 """E4 + A7 / A8 — the real SSE4.1 / AVX2 alpha kernels of src/alpha/*/{sse4,avx2}.rs, executed by Kani with the x86
 instructions it cannot run replaced (kani::stub) by the instruction models of contracts/simd_models.rs.
 
-A7 (complete): every per-vector function, all lanes symbolic, against the portable function of native.rs
-    u8   : byte-identical to native (multiply and divide)
+A7 (complete): every per-vector function, all lanes symbolic
+    u8   : byte-identical to native::*_alpha_row on the same pixels (multiply and divide; the real 256-entry reciprocal table)
     u16  : multiply identical to native; divide against the bound of C06 itself - result in {floor(cM/a), ceil(cM/a)}
            clipped at M (hence |simd - native| <= 1, native being faithful by A3/A4), a == 0 -> 0
-    f32  : colour lanes bit-identical to native (or both NaN); a == 0 -> +0
+           (the native 65536-entry table with a symbolic index exhausts CBMC, see A4)
+    f32  : two harnesses per kernel, because SAT cannot prove two symbolic binary32 multipliers/dividers equivalent in
+           reasonable time (one divider pair: no answer in 13 min; one multiplier pair: ~26 s, 24 of them per AVX2 F32x4 vector):
+           * complete: MULPS/DIVPS lane operation left uninterpreted (Ackermann table, simd_models.rs mod uf): every colour lane
+             is F(colour, alpha) of its own pixel, +0 for alpha == +-0 (divide), F applied once per colour lane, for EVERY F;
+           * bounded `_native_grid`: the real MULPS/DIVPS models against the real native function on 144 (colour, alpha)
+             pairs of special values (0, -0, subnormal, inf, NaN, ...), bit-identical or both NaN.
     all  : alpha lane bit-identical to the input
-A8 (bounded): the row drivers multiply_alpha_row / _inplace, divide_alpha_row / _inplace of the same files on rows of
-    0 ..= 2*lanes+1 pixels (main loop twice, remainder, tail), same oracles per pixel, nothing written before the row;
-    the rows end at the end of their allocation so that any access past the row is an out-of-bounds access for Kani.
+A8 (bounded): the real row drivers multiply_alpha_row / _inplace, divide_alpha_row / _inplace of the same files on rows of
+    every length 0 ..= 2*lanes+1 (main loop twice, every remainder, AVX2 -> SSE4.1 -> native hand-over), symbolic contents.
+    Compositional: the per-vector functions and the portable row functions are replaced by a stand-in pixel function
+    G_K(p) = p xor K (K arbitrary) applied pixel-wise; the driver must leave G_K(pixel) in every pixel, in-place == two-image,
+    nothing written before the row; the rows end at the end of their allocation so that any access behind the row is an
+    out-of-bounds access for Kani.  (Running the real per-vector arithmetic inside the drivers was measured: 10-12 GB per harness.)
 
 The kernel text is the real one.  Stubbed = assumed contract on the hardware (MODELS below), cross-checked natively by
 tools/simd_model_selftest.sh which includes the same simd_models.rs.
+
+Kani facts this file works around: at most 12 kani::stub attributes per harness (rustc attribute-expansion recursion limit, the
+crate root cannot be edited) -> stubs are computed per kernel function from its text; Kani's NaN check fires on every `*` / `/`
+that can create a NaN and on every division by an infinity -> the MULPS/DIVPS models spell those cases out and the native code
+is not executed on such operand pairs; `==` on arrays is memcmp (very slow) -> word-wise comparisons.
 """
 import os
 import re
@@ -424,16 +438,15 @@ def a8(d, isa):
                   stubs="".join("    #[kani::stub(%s)]\n" % t for t in stubs),
                   raw="[[%s; %d]; MAXN]" % (k["comp"], nc))
         code += """
-    #[kani::proof]
-    #[kani::unwind(%(unw)d)]
-%(stubs)s    fn a8_%(d)s_%(isa)s_%(op)s() {
+    /// rows of lo ..= hi pixels
+    fn rows_%(op)s(lo: usize, hi: usize) {
         const MAXN: usize = %(maxn)d;
         let raw: %(raw)s = kani::any(); // symbolic contents
         let k: [u32; 4] = kani::any(); // G = G_K for an arbitrary K
         crate::fv_simd::uf::gk_set(k);
         kani::cover!(k[0] != 0);
-        let mut n = 0;
-        while n <= MAXN {
+        let mut n = lo;
+        while n <= hi {
             // the row is the LAST n pixels of its allocation: any access behind the row is out of bounds for Kani;
             // the pixels before it are checked to be untouched
             let off = MAXN - n;
@@ -462,13 +475,29 @@ def a8(d, isa):
         kani::cover!(true);
     }
 """ % kk
-        hs.append(dict(name="a8_%s_%s_%s" % (d, isa, op), kind="bounded", covers=2, timeout=1800,
-                       bound="rows of 0 ..= %d pixels (2 x %d lanes + 1), every length, symbolic contents" % (maxn, L),
-                       claim="%s %s %s_alpha_row and %s_alpha_row_inplace (real driver code: chunking, pre-reading loop, zero-padded remainder buffers%s): "
-                             "for every stand-in pixel function G_K(p) = p xor K (K arbitrary): if the per-vector function%s and the portable row functions apply G_K to each of their pixels, "
-                             "the driver leaves G_K(pixel) in every pixel of the row - main loop, remainder and tail; in-place == two-image; src untouched; "
-                             "the row ends at the end of its allocation (no access behind it) and the pixels before it stay untouched.  With G = the per-pixel function established by A7 this is 'native per pixel'"
-                             % (ty, isa, op, op, ", AVX2 -> SSE4.1 hand-over" if hand_over else "", "s (AVX2 and SSE4.1)" if hand_over else "")))
+        # one harness per range of lengths; the ranges are cut so that a harness sees at most ~160 pixels in total
+        # (measured: all 34 lengths of the 16-pixel AVX2 drivers in one harness = 561 pixels = 10 GB / 15 min)
+        parts, lo, acc = [], 0, 0
+        for n in range(maxn + 1):
+            if acc + n > 160 and n > lo:
+                parts.append((lo, n - 1))
+                lo, acc = n, 0
+            acc += n
+        parts.append((lo, maxn))
+        for lo, hi in parts:
+            name = "a8_%s_%s_%s" % (d, isa, op) + ("" if len(parts) == 1 else "_n%d_%d" % (lo, hi))
+            code += """
+    #[kani::proof]
+    #[kani::unwind(%(unw)d)]
+%(stubs)s    fn %(name)s() { rows_%(op)s(%(lo)d, %(hi)d) }
+""" % dict(kk, name=name, lo=lo, hi=hi)
+            hs.append(dict(name=name, kind="bounded", covers=2, timeout=1800,
+                           bound="rows of %d ..= %d pixels (of 0 ..= %d = 2 x %d lanes + 1; every length), symbolic contents" % (lo, hi, maxn, L),
+                           claim="%s %s %s_alpha_row and %s_alpha_row_inplace (real driver code: chunking, pre-reading loop, zero-padded remainder buffers%s): "
+                                 "for every stand-in pixel function G_K(p) = p xor K (K arbitrary): if the per-vector function%s and the portable row functions apply G_K to each of their pixels, "
+                                 "the driver leaves G_K(pixel) in every pixel of the row - main loop, remainder and tail; in-place == two-image; src untouched; "
+                                 "the row ends at the end of its allocation (no access behind it) and the pixels before it stay untouched.  With G = the per-pixel function established by A7 this is 'native per pixel'"
+                                 % (ty, isa, op, op, ", AVX2 -> SSE4.1 hand-over" if hand_over else "", "s (AVX2 and SSE4.1)" if hand_over else "")))
     return code, hs
 
 
